@@ -268,6 +268,8 @@ class Exec(object):
 
     def unify(self, a, b):
         if a.t == b.t: return a, b
+        if a.t == ATOM and b.t == WORD: return self.coerce(a, WORD), b          # a one-character string where a string is expected
+        if a.t == WORD and b.t == ATOM: return a, self.coerce(b, WORD)
         if a.t.kind == 'opt' and b.t == NONE: return a, SV(a.t, parts(a.t)[1])
         if b.t.kind == 'opt' and a.t == NONE: return SV(b.t, parts(b.t)[1]), b
         if a.t == NONE: ot = OPT(b.t); return SV(ot, parts(ot)[1]), SV(ot, parts(ot)[2](b.z))
@@ -785,6 +787,36 @@ class Exec(object):
         if v.t.kind == 'set': return S.card(v)
         raise Unsupported('len of %s' % v.t)
 
+    def b_sorted(self, p, e):
+        """trusted builtin contract B-sorted: sorted(S, key=f) of a set is a list without repetitions whose elements are those of S,
+        non-decreasing in the key (the order among equal keys is left open: every tie-break is covered)"""
+        if self.spec_mode or len(e.args) != 1: raise Unsupported('sorted')
+        s = self.ev(p, e.args[0])
+        if isinstance(s, Gen) or s.t.kind != 'set': raise Unsupported('sorted of %s' % getattr(s, 't', 'generator'))
+        key = [k.value for k in e.keywords if k.arg == 'key']
+        if any(k.arg not in ('key',) for k in e.keywords): raise Unsupported('sorted(..., reverse=)')
+        et = s.t.args[0]; r = fresh('sorted', LIST(et)); i, j = fresh_z('i', z3.IntSort()), fresh_z('j', z3.IntSort()); x = fresh('x', et)
+        at = lambda k: SV(et, Select(list_arr(r), k))
+        self.assume(p, list_len(r) >= 0)
+        self.assume(p, ForAll([i], Implies(And(0 <= i, i < list_len(r)), Select(s.z, at(i).z))))
+        self.assume(p, ForAll([x.z], Implies(Select(s.z, x.z), Exists([i], And(0 <= i, i < list_len(r), at(i).z == x.z)))))
+        self.assume(p, ForAll([i, j], Implies(And(0 <= i, i < j, j < list_len(r)), at(i).z != at(j).z)))
+        if key:
+            lam = key[0]
+            if not isinstance(lam, ast.Lambda) or len(lam.args.args) != 1: raise Unsupported('sorted key')
+            def kf(v):
+                saved = dict(p.env); p.env[lam.args.args[0].arg] = v
+                try: kv = self.ev(p, lam.body)
+                finally: p.env.clear(); p.env.update(saved)
+                if kv.t != INT: raise Unsupported('sorted key of type %s' % kv.t)
+                return kv.z
+            self.assume(p, ForAll([i, j], Implies(And(0 <= i, i <= j, j < list_len(r)), kf(at(i)) <= kf(at(j)))))
+        elif et != INT:
+            pass      # natural order of strings: nothing is assumed about it
+        else:
+            self.assume(p, ForAll([i, j], Implies(And(0 <= i, i <= j, j < list_len(r)), at(i).z <= at(j).z)))
+        return r
+
     def b_set(self, p, e):
         if not e.args:
             raise Unsupported('set() needs a declared element type')
@@ -959,6 +991,9 @@ class Exec(object):
             nf = T.NAMING.get(fmt)
             if nf is not None and all(a.t in (ATOM, INT) for a in args):
                 return SV(ATOM, nf(*[a.z for a in args]))
+            mf = T.MESSAGES.get(fmt)          # feedback messages with one word argument: an uninterpreted function of the word (injectivity is not assumed)
+            if mf is not None and len(args) == 1 and args[0].t in (WORD, ATOM):
+                return SV(TEXT, mf(self.coerce(args[0], WORD).z))
         return fresh('text', TEXT)
 
     def e_JoinedStr(self, p, e): return fresh('text', TEXT)
@@ -1284,7 +1319,11 @@ class Exec(object):
             g = self.spec(p, a_)
             self.oblig(p, 'assert-before-return#%d@%d' % (i + 1, st.lineno), 'assert', g, st.lineno)
             p.pc.append(g)
-        v = self.ev(p, st.value) if st.value is not None else SV(NONE, parts(NONE)[1])
+        rt_ = self.c.result_type
+        if st.value is not None and rt_ is not None and rt_.kind in ('list', 'set', 'map') and (self.is_empty_literal(st.value) or isinstance(st.value, ast.List)):
+            v = self.empty_of(rt_, st.value) if self.is_empty_literal(st.value) else self.ev_hint(p, st.value, rt_)      # the declared result type types the literal
+        else:
+            v = self.ev(p, st.value) if st.value is not None else SV(NONE, parts(NONE)[1])
         if isinstance(v, Gen): raise Unsupported('returning a generator')
         self.post(p, v, st.lineno); return []
 
